@@ -229,6 +229,9 @@ func configs(thorough bool) []config {
 				config{n: 11, m: 1, pred: idx["C4-free"], placement: 0, co: co, big: true}, config{n: 13, m: 1, pred: idx["forest"], placement: 0, co: co, big: true},
 				config{n: 10, m: 1, pred: idx["bipartite"], placement: 0, co: co, big: true})
 		}
+		// 1262180 triangle-free classes on 12 vertices (split over 16 shards): the parents of these graphs are the
+		// first whose canonical-labelling search takes its rarest branches
+		r = append(r, config{n: 12, m: 16, pred: idx["triangle-free"], placement: 0, co: false, big: true})
 	}
 	return r
 }
@@ -334,7 +337,7 @@ func restrictedLocked(n int, p srch.Pred) []*rg.G {
 // published counts used to validate restricted() (OEIS A005195 forests, A006785 triangle-free graphs)
 var (
 	forestCounts       = []int{1, 1, 2, 3, 6, 10, 20, 37, 76, 153, 329, 710, 1601, 3658}
-	triangleFreeCounts = []int{1, 1, 2, 3, 7, 14, 38, 107, 410, 1897, 12172, 105071}
+	triangleFreeCounts = []int{1, 1, 2, 3, 7, 14, 38, 107, 410, 1897, 12172, 105071, 1262180}
 )
 
 func run(c *engine.Ctx) {
